@@ -272,6 +272,9 @@ class Runner:
                 for j, b in enumerate(blks):
                     b.p.cornerFastFlux = np.array([100.0 * st["u"] + 10.0 * j + i for i in range(6)])
                     b.p.pointsEdgeFastFluxFr = np.array([0.5 * st["u"] + j + 0.1 * i for i in range(6)])
+                    # ... and a mechanical displacement vector (bowing)
+                    b.p.displacementX = 1e-3 * (1 + (st["u"] + j) % 5)
+                    b.p.displacementY = -4e-4 * (1 + j % 3)
                 self.boundary_assigned = True
             elif st["which"] == "rotate":
                 # fuel management turned an assembly earlier on
@@ -475,6 +478,15 @@ class Runner:
                                     self.fail("C13.convert", f"step {k}: {pn} of a block of the copy of {s_asm.getName()} at {a.getLocation()} (turned by {120 * kk} degrees) is {[float(x) for x in vn]}, the source's values turned by {120 * kk} degrees are {exp_v}", what="boundary-data")
                                     break
                                 self.probe("copies_boundary_data_checked")
+                            dxs, dys = bs.p.get("displacementX"), bs.p.get("displacementY")
+                            if dxs is not None and dys is not None and (dxs or dys):
+                                ex = float(dxs) * math.cos(ang) - float(dys) * math.sin(ang)
+                                ey = float(dxs) * math.sin(ang) + float(dys) * math.cos(ang)
+                                gx, gy = float(bn.p.displacementX), float(bn.p.displacementY)
+                                if abs(gx - ex) > 1e-12 or abs(gy - ey) > 1e-12:
+                                    self.fail("C13.convert", f"step {k}: the displacement of a block of the copy of {s_asm.getName()} at {a.getLocation()} (turned by {120 * kk} degrees) is ({gx}, {gy}); the source's ({float(dxs)}, {float(dys)}) turned by {120 * kk} degrees is ({ex}, {ey})", what="displacement")
+                                    break
+                                self.probe("copies_displacement_checked")
                             want = (int(bs.getRotationNum()) + 2 * kk) % 6
                             if int(bn.getRotationNum()) != want:
                                 self.fail("C13.convert", f"step {k}: the copy of {s_asm.getName()} at {a.getLocation()} (its centre turned by {120 * kk} degrees) has blocks turned by {60 * ((int(bn.getRotationNum()) - int(bs.getRotationNum())) % 6)} degrees relative to the source", what="rotation")
